@@ -1922,7 +1922,7 @@ meshgrid trace diagonal cross outer kron tensordot cumsum diff add subtract mult
 atleast_1d atleast_2d atleast_3d split array_split hsplit vsplit column_stack row_stack take_along_axis
 put_along_axis unravel_index ravel_multi_index argwhere logical_and logical_or logical_not logical_xor any all
 count_nonzero shape ndim size copy block einsum_path searchsorted bincount lexsort rot90 compress choose select
-broadcast_shapes invert bitwise_and bitwise_or mod floor_divide cumprod iterable may_share_memory shares_memory
+broadcast_shapes invert bitwise_and bitwise_or mod floor_divide cumprod iterable may_share_memory shares_memory resize trim_zeros
 """.split()
 
 
